@@ -2,34 +2,55 @@
 From Coq Require Import List Bool Arith NArith.
 Import ListNotations.
 Require Import Kinds Automaton PyStr Line Matcher Ast Builder Compiler CompilerSpec Pipeline PipelineFacts PipelineErrors
-               Stream StreamFacts Delivery DeliveryInst TableFacts Table.
+               ErrorFacts Stream StreamFacts Delivery DeliveryInst TableFacts Table Dialects BuilderSafe Safety Totality.
 
-(* a parse ends: the model's fuel never runs out, for any source text and either error mode *)
-Theorem C01_terminates : forall stop m b src, wf_ms m -> parse_source stop m b src <> POutOfFuel.
-Proof.
-  intros stop m b src W. pose proof (source_delivery stop m b src W) as D. unfold parse_source.
-  destruct (parse_tokens stop (scan src) m b); try discriminate; [destruct (builder_result (bs c)); discriminate | contradiction].
-Qed.
-Print Assumptions C01_terminates.
+(* Parser.parse, for every source text, either error mode, any well-formed matcher: a document, or the
+   library's parser errors -- never another exception (no Crash in the model), never a hang (no OutOfFuel) *)
+Theorem C01_parse_total : forall stop m b src, wf_ms m ->
+  match parse_source stop m b src with
+  | POk d _ _ _ => rect_doc d
+  | PErrs es _ _ _ => 1 <= length es <= 11 /\ no_dup_msgs es
+  | PErr1 e _ _ _ => stop = true
+  | PCrash | POutOfFuel => False
+  end.
+Proof. exact parse_source_classified. Qed.
+Print Assumptions C01_parse_total.
 
-(* what Parser.parse raises in collecting mode: between one and eleven errors, pairwise different messages;
-   every error carries a line (by the type of `loc`) *)
-Theorem C01_error_count : forall stop toks m b,
+(* the generic core: the interpreter with the real matcher and builder never reaches a Crash *)
+Theorem C01_no_crash : forall stop toks m b, wf_ms m ->
   match parse_tokens stop toks m b with
-  | Ok _ c => errs c = []
-  | RaiseC es c => es = errs c /\ no_dup_msgs es /\ 1 <= length es <= 11
+  | Crash _ => False
+  | Ok _ c => exists d, builder_result (bs c) = Some d /\ rect_doc d
   | _ => True
   end.
-Proof. exact pipeline_errors. Qed.
-Print Assumptions C01_error_count.
+Proof. exact parse_tokens_total. Qed.
+Print Assumptions C01_no_crash.
 
-(* compiling never fails on a document whose example rows are at least as long as their headers
-   (what the builder's ensure_cell_count guarantees); it fails (IndexError) only on a shorter row *)
-Theorem C01_compile_total : forall uri d idc, Forall rectangular_unit (doc_units d) -> compile uri d idc <> None.
-Proof. exact compile_total. Qed.
+(* the builder never crashes on a well-typed node whose required keys are present (the invariant
+   the shape certificate of the regenerated table maintains) *)
+Theorem C01_builder_safe : forall n comments idc x,
+  node_rt n = KR x -> node_ok n -> Forall (has_key n) (required x) -> (x = RDocString -> docstring_ok n) ->
+  tnode_spec x (transform_node n comments idc).
+Proof. exact transform_node_ok. Qed.
+Print Assumptions C01_builder_safe.
+Theorem C01_shape_certificate : ShapeDefs.shape_ok Table.table ShapeCert.dstates Table.start_state ShapeCert.beta = true.
+Proof. exact ShapeCert.beta_ok. Qed.
+Print Assumptions C01_shape_certificate.
+
+(* compiling any document the parser returns yields pickles *)
+Theorem C01_compile_total : forall stop m b src d m' b' n uri idc, wf_ms m ->
+  parse_source stop m b src = POk d m' b' n -> compile uri d idc <> None.
+Proof. exact compile_parsed. Qed.
 Print Assumptions C01_compile_total.
+Theorem C01_compile_fails_only_on_short_rows : forall uri d idc,
+  Forall rectangular_unit (doc_units d) -> compile uri d idc <> None.
+Proof. exact compile_total. Qed.
+Print Assumptions C01_compile_fails_only_on_short_rows.
 
-(* the stream yields source / gherkinDocument / pickle envelopes, or parseError envelopes only *)
+(* the stream API turns any source(s) into envelopes: source / gherkinDocument / pickle, or parseError only *)
+Theorem C01_stream_total : forall o srcs idc, enum_sources o idc srcs <> None.
+Proof. exact enum_sources_total. Qed.
+Print Assumptions C01_stream_total.
 Theorem C01_envelopes : forall o idc uri data es i,
   enum_source o idc uri data = Some (es, i) ->
   (exists errs, es = map (fun e => EnvParseError uri (e_loc e) (e_msg e)) errs)
